@@ -99,6 +99,7 @@ def build_world() -> World:
     s("_is_processing", BOOL)
     s("_plugins", ListSort(Plugin))
     s("_subscribers", ListSort(Callable_))
+    s("_emit_listeners", DictSort(STR, ListSort(Callable_)))
 
     # ------------------------------------------------------------------ exceptions
     e = w.exc
@@ -154,6 +155,13 @@ def build_world() -> World:
         # neither raises nor (A-user) writes interpreter-private state.
         if isinstance(recv, Val) and recv.sort == Plugin:
             return [(st, fresh(OPAQUE, "hookret"))]
+        # A user-supplied callable (subscriber, emit listener, action, guard, service ...):
+        # may return anything, may raise any Exception subclass that is not a library error
+        # (UserExc), and - assumption A-user - does not write interpreter-private fields.
+        if isinstance(recv, Val) and recv.sort == Callable_ and name.startswith("<call:"):
+            sx = st.copy()
+            eng.raised.append(Outcome("raise", sx, ExcVal("UserExc")))
+            return [(st, fresh(OPAQUE, "userret"))]
         return None
     w.external_hook = external_hook
     w.external_mods = lambda name: []
